@@ -214,6 +214,25 @@ def build_and_audit(tier: str = "quick") -> dict:
         extract.write(facts)
         t0 = time.time()
         p = sh(["lake", "build", "Rbacx", "driver", "Rbacx.Generated"], cwd=LEAN)
+        for _ in range(4):
+            if p.returncode == 0:
+                break
+            # a TRANSLATION of the current source text that does not compile is a translation that failed, not a broken installation: the
+            # plugin's section is replaced by its failure note (its obligation is then undischarged and the check searches for a failing
+            # input); anything else that does not build stays an infrastructure error
+            import re as _re
+            bad = set()
+            for m in _re.finditer(r"error: \S*Rbacx/Generated\.lean:(\d+):\d+", p.stdout + p.stderr):
+                key = extract.section_of_line(facts, int(m.group(1)))
+                if key and key.startswith("translated") and not (isinstance(facts.get(key), dict) and "extraction_failed" in facts[key]):
+                    bad.add((key, m.group(0)))
+            if not bad:
+                break
+            for key, where in bad:
+                line = next((ln for ln in (p.stdout + p.stderr).splitlines() if where in ln), where)
+                facts[key] = {"extraction_failed": "the translation does not compile: " + line.strip()[:300]}
+            extract.write(facts)
+            p = sh(["lake", "build", "Rbacx", "driver", "Rbacx.Generated"], cwd=LEAN)
         if p.returncode != 0:
             return {"ok": False, "stage": "build", "log": (p.stdout + p.stderr)[-4000:], "facts": facts}
         digest = _sources_digest()
